@@ -168,11 +168,66 @@ def stacked():
     return None
 
 
+def overlapping(tmo, calls):
+    """Several calls in flight through ONE wrapper object (two tasks calling the same decorated function): each call has its
+    own deadline and its own outcome.  calls = [(start offset, duration)], all through the same wrapper."""
+    state = {}
+
+    async def main(loop):
+        cancelled_at = {}
+
+        @timeout(tmo)
+        async def fn(i, duration):
+            try:
+                await asyncio.sleep(duration)
+                return ("value", i)
+            except asyncio.CancelledError:
+                cancelled_at[i] = loop.time()
+                raise
+
+        async def caller(i, offset, duration):
+            await asyncio.sleep(offset)
+            t0 = loop.time()
+            try:
+                return (i, "ret", await fn(i, duration), loop.time() - t0)
+            except BaseException as e:  # noqa
+                return (i, "exc", type(e).__name__, loop.time() - t0)
+        res = await asyncio.gather(*[caller(i, o, d) for i, (o, d) in enumerate(calls)])
+        await asyncio.sleep(1)
+        state["res"], state["cancelled_at"] = res, cancelled_at
+    try:
+        run(main)
+    except Hang as h:
+        return f"overlapping calls {calls} through one timeout({tmo}) wrapper: {h}"
+    for (i, kind, val, took) in state["res"]:
+        offset, duration = calls[i]
+        if duration < tmo:
+            if (kind, val) != ("ret", ("value", i)) or abs(took - duration) > 1e-9:
+                return (f"overlapping calls {calls} through one timeout({tmo}) wrapper: call {i} (duration {duration}) got "
+                        f"{(kind, val)} after {took}")
+        elif duration > tmo:
+            if (kind, val) != ("exc", "TimeoutError") or abs(took - tmo) > 1e-9:
+                return (f"overlapping calls {calls} through one timeout({tmo}) wrapper: call {i} (duration {duration}) got "
+                        f"{(kind, val)} after {took}, expected TimeoutError after {tmo}")
+            if abs(state["cancelled_at"].get(i, -1.0) - (offset + tmo)) > 1e-9:
+                return (f"overlapping calls {calls} through one timeout({tmo}) wrapper: the function of call {i} was cancelled at "
+                        f"{state['cancelled_at'].get(i)}, expected {offset + tmo}")
+    return None
+
+
 def search():
     n = 0
     p = stacked()
     if p:
         return 1, dict(problem=p)
+    for tmo in (1.0, 5.0):
+        for calls in ([(0, 0.5), (0.1, 50.0)], [(0, 50.0), (0.1, 0.5)], [(0, 0.5), (0, 0.5)], [(0, 50.0), (0.5, 50.0)],
+                      [(0, 0.25), (0.1, 50.0), (0.2, 0.3)], [(0, 50.0), (0.1, 0.2), (0.2, 50.0), (0.3, 0.1)],
+                      [(0, 0.5), (0.6, 50.0), (0.7, 0.1)]):
+            n += 1
+            p = overlapping(tmo, calls)
+            if p:
+                return n, dict(problem=p)
     for outcome in OUTCOMES:
         for duration in (0.0, 0.5, 1.0, 2.0):
             for tmo in (0.5, 1.0, 3.0):
@@ -187,6 +242,12 @@ def search():
 def main():
     sys.stdin.read()
     n, fail = search()
+    if not fail:
+        from mimic_frame import own_state_problems
+        from haiway import timeout as _timeout
+        n += 1
+        p = own_state_problems(lambda f: _timeout(5)(f), True, "timeout")
+        fail = dict(problem=p) if p else None
     if fail:
         print(json.dumps(dict(reproduced=True, detail=fail, cases_tried=n)))
     else:
